@@ -180,10 +180,11 @@ Theorem C06_engine_duplicate_first_start_inert : forall sp s tid rerun reset,
 Proof. exact EngineMore.duplicate_first_start_inert. Qed.
 Print Assumptions C06_engine_duplicate_first_start_inert.
 
-(* a redelivered resume-issued start request for a task that has started is ignored entirely *)
+(* a redelivered resume-issued start request for a task that has started starts nothing: no task,
+   action or workflow field changes, only a workflow completion check is registered *)
 Theorem C06_engine_stale_resume_start_ignored : forall sp s tid reset,
   tid < List.length (Engine.tasks s) -> Gen.States.is_idle (Engine.t_state (Engine.get_task s tid)) = false ->
-  Engine.do_start_task sp s tid false false reset = (s, Engine.Ok).
+  Engine.do_start_task sp s tid false false reset = (Engine.add_pend s (Engine.IPtq [Engine.OCheck]), Engine.Ok).
 Proof. exact EngineMore.stale_resume_start_ignored. Qed.
 Print Assumptions C06_engine_stale_resume_start_ignored.
 
